@@ -1226,6 +1226,7 @@ class SyncInterpreter(BaseInterpreter[TContext, TEvent]):
         event: Event,
         on_complete: Optional[str] = None,
         owner_id: Optional[str] = None,
+        invocation: Optional[InvokeDefinition] = None,
     ) -> None:
         """Spawns a child state machine actor in blocking or non-blocking mode.
 
@@ -1242,6 +1243,9 @@ class SyncInterpreter(BaseInterpreter[TContext, TEvent]):
                 is stamped on the completion event, so a child that finishes
                 after its state was left and re-entered does not drive the
                 new activation's `onDone`.
+            invocation: The `invoke` definition, when the actor is an invoked
+                machine: a child that ends in the `error` status is reported
+                through `error.platform.<id>` like any other failed service.
 
         Raises:
             ActorSpawningError: If the specified service is not a valid
@@ -1312,7 +1316,9 @@ class SyncInterpreter(BaseInterpreter[TContext, TEvent]):
         if blocking:
             child.start()
             if on_complete is not None:
-                self._queue_actor_done(child, on_complete, activation)
+                self._queue_actor_done(
+                        child, on_complete, activation, invocation
+                    )
             return
 
         # --- Non-Blocking Execution Path (via a background thread) ---
@@ -1345,7 +1351,9 @@ class SyncInterpreter(BaseInterpreter[TContext, TEvent]):
             finally:
                 # 🧹 Ensure cleanup happens whether the child finishes or is stopped.
                 if on_complete is not None:
-                    self._queue_actor_done(child, on_complete, activation)
+                    self._queue_actor_done(
+                        child, on_complete, activation, invocation
+                    )
                 child.stop()
                 # 🧹 Only forget OUR child. After `stopChild(id)` the same id
                 #    may already name a newly spawned actor; popping by id
@@ -1372,6 +1380,7 @@ class SyncInterpreter(BaseInterpreter[TContext, TEvent]):
         child: "SyncInterpreter",
         invoke_id: str,
         activation: Optional[Tuple[str, int]] = None,
+        invocation: Optional[InvokeDefinition] = None,
     ) -> None:
         """Queues `done.invoke.<id>` for a completed child machine.
 
@@ -1383,7 +1392,32 @@ class SyncInterpreter(BaseInterpreter[TContext, TEvent]):
             child: The spawned child interpreter.
             invoke_id: The `invoke` id to report completion under.
             activation: The invoking state's activation at spawn time.
+            invocation: The `invoke` definition (for failure reporting).
         """
+        # 💥 A child that FAILED satisfies `onError`, like a failed callable
+        #    service (and like the async engine): it used to end silently, so
+        #    the parent waited for ever and an unhandled failure went unseen.
+        if child.status == "error":
+            failure = getattr(child, "error", None) or RuntimeError(
+                f"Invoked machine '{invoke_id}' failed."
+            )
+            error_event = DoneEvent(
+                type=f"error.platform.{invoke_id}",
+                data=failure,
+                src=invoke_id,
+            )
+            if activation is not None:
+                error_event = self._stamp_activation(
+                    error_event, activation[0]
+                )
+                error_event.activation = activation
+            if invocation is not None and not self._has_error_handler(
+                invocation
+            ):
+                error_event.unhandled_failure = failure
+            self.send(error_event)
+            return
+
         reached_final = any(
             node.is_final and node.parent is child.machine
             for node in list(child._active_state_nodes)
@@ -1574,6 +1608,7 @@ class SyncInterpreter(BaseInterpreter[TContext, TEvent]):
                 Event(type=f"invoke.{invocation.id}"),
                 on_complete=invocation.id,
                 owner_id=owner_id,
+                invocation=invocation,
             )
             # 🔗 The child lives exactly as long as the invoking state.
             self._invoked_actor_ids.setdefault(owner_id, []).append(
